@@ -79,10 +79,10 @@ impl Check for C38 {
         tier.pick(2000, 120_000)
     }
     fn rule(&self) -> String {
-        "case = a seeded history in which an actor id is reused on two branches (fork without a new actor, or reload of a stale save continuing with the same actor), both branches commit 1–3 changes (conflicting (actor, seq) pairs with different hashes), and the conflicting branch is delivered to the other document by one of: apply_changes (in order / dependents first so they are queued), load_incremental, merge, a sync session, load of concatenated saves; before, after or interleaved with further local commits of the receiving side. After every delivery attempt: no two different changes share (actor, seq), per-actor seqs are gap-free, H3 holds, load(save()) and load(save{retain_orphans}) succeed and equal the document; after a local commit at seq s no queued change of that actor with seq ≥ s remains. Non-trivial = a conflicting change was actually delivered; distinct by (path, timing, order).".into()
+        "case = a seeded history in which an actor id (in a third of the cases one that has not committed anything yet, so both branches claim its seq 1) is reused on two branches (fork without a new actor, or reload of a stale save continuing with the same actor), both branches commit 1–3 changes (conflicting (actor, seq) pairs with different hashes), and the conflicting branch is delivered to the other document by one of: apply_changes (in order / dependents first so they are queued), load_incremental, merge, a sync session, load of concatenated saves; before, after or interleaved with further local commits of the receiving side. After every delivery attempt: no two different changes share (actor, seq), per-actor seqs are gap-free, H3 holds, load(save()) and load(save{retain_orphans}) succeed and equal the document; after a local commit at seq s no queued change of that actor with seq ≥ s remains. Non-trivial = a conflicting change was actually delivered; distinct by (path, timing, order).".into()
     }
     fn required_counters(&self) -> Vec<&'static str> {
-        vec!["conflicts_delivered", "path_apply", "path_apply_dependents_first", "path_load_incremental", "path_merge", "path_sync", "path_concat_load", "local_commit_after_queueing", "rejected", "uniqueness_checks"]
+        vec!["conflicts_delivered", "path_apply", "path_apply_dependents_first", "path_load_incremental", "path_merge", "path_sync", "path_concat_load", "local_commit_after_queueing", "rejected", "uniqueness_checks", "shared_actor_without_history"]
     }
     fn run_case(&self, cx: &mut Ctx, case: u64, rng: &mut Rng) {
         let enc = enc_for(rng);
@@ -94,6 +94,11 @@ impl Check for C38 {
         // A continues with its actor; B is a same-actor branch of A
         let mut a = w.docs[0].clone();
         a.commit();
+        if rng.chance(35) {
+            // the shared actor has not committed anything yet: both branches will claim its seq 1
+            a.set_actor(actor(56));
+            cx.count("shared_actor_without_history");
+        }
         let shared_actor = a.get_actor().clone();
         let stale = a.save();
         let mut b = if rng.chance(50) {
